@@ -50,13 +50,13 @@ type trace struct {
 	scn    *Scn
 	evs    []ev
 	cycles []*cycle
-	items  map[string]*itemRec
+	items  map[string][]*itemRec // per (module, item id): the successive executions of its function
 	lines  []string
 	failed string
 }
 
 func parseTrace(lines []string) *trace {
-	tr := &trace{items: map[string]*itemRec{}, lines: lines}
+	tr := &trace{items: map[string][]*itemRec{}, lines: lines}
 	if len(lines) == 0 {
 		return tr
 	}
@@ -149,9 +149,9 @@ func parseTrace(lines []string) *trace {
 			case "workEnter":
 				if len(e.args) >= 2 {
 					key := fmt.Sprintf("%d/%s", e.mod, e.args[1])
-					if _, ok := tr.items[key]; !ok {
+					if l := tr.items[key]; len(l) == 0 || l[len(l)-1].exit >= 0 {
 						c, _ := strconv.Atoi(e.args[0])
-						tr.items[key] = &itemRec{mod: e.mod, id: e.args[1], enter: e.idx, exit: -1, enterCancel: c, exitStatus: -1}
+						tr.items[key] = append(l, &itemRec{mod: e.mod, id: e.args[1], enter: e.idx, exit: -1, enterCancel: c, exitStatus: -1})
 					}
 				}
 			}
@@ -162,13 +162,14 @@ func parseTrace(lines []string) *trace {
 				if len(e.args) >= 2 {
 					m, _ := strconv.Atoi(e.args[0])
 					key := fmt.Sprintf("%d/%s", m, e.args[1])
-					tr.items[key] = &itemRec{mod: m, id: e.args[1], enter: e.idx, exit: -1, enterCancel: -1, exitStatus: -1, signalled: true}
+					tr.items[key] = append(tr.items[key], &itemRec{mod: m, id: e.args[1], enter: e.idx, exit: -1, enterCancel: -1, exitStatus: -1, signalled: true})
 				}
 			case "workExit":
 				if len(e.args) >= 3 {
 					m, _ := strconv.Atoi(e.args[0])
 					key := fmt.Sprintf("%d/%s", m, e.args[1])
-					if it, ok := tr.items[key]; ok && it.exit < 0 {
+					if l := tr.items[key]; len(l) > 0 && l[len(l)-1].exit < 0 {
+						it := l[len(l)-1]
 						it.exit, it.tExit = e.idx, e.t
 						it.exitStatus, _ = strconv.Atoi(strings.TrimPrefix(e.args[2], "status="))
 					}
@@ -179,6 +180,30 @@ func parseTrace(lines []string) *trace {
 	return tr
 }
 
+// all returns every recorded execution of every item, in a deterministic order.
+func (tr *trace) all() []*itemRec {
+	keys := make([]string, 0, len(tr.items))
+	for k := range tr.items {
+		keys = append(keys, k)
+	}
+	sort.Strings(keys)
+	var out []*itemRec
+	for _, k := range keys {
+		out = append(out, tr.items[k]...)
+	}
+	return out
+}
+
+// byExit finds the execution that ended at event idx.
+func (tr *trace) byExit(key string, idx int) *itemRec {
+	for _, it := range tr.items[key] {
+		if it.exit == idx {
+			return it
+		}
+	}
+	return nil
+}
+
 func (tr *trace) nonTrivial() bool {
 	if tr.scn == nil {
 		return false
@@ -187,8 +212,8 @@ func (tr *trace) nonTrivial() bool {
 		if c.fnEnter >= 0 {
 			return true
 		}
-		for _, it := range tr.items {
-			if it.mod == c.mod && it.enter < c.begin {
+		for _, it := range tr.all() {
+			if it.mod == c.mod && it.enter < c.begin && (it.exit < 0 || it.exit > c.begin) {
 				return true
 			}
 		}
@@ -291,13 +316,7 @@ func monitorLines(lines []string) (vs []hxlib.Violation) {
 				return fmt.Sprintf("the stop routine of m%d had not returned", c.mod), true
 			}
 		}
-		keys := make([]string, 0, len(tr.items))
-		for k := range tr.items {
-			keys = append(keys, k)
-		}
-		sort.Strings(keys)
-		for _, k := range keys {
-			it := tr.items[k]
+		for _, it := range tr.all() {
 			if it.mod == c.mod && it.enter < c.begin && (it.exit < 0 || it.exit > at) {
 				// it was running when the stop began and has not returned
 				// (an item of an earlier cycle that outlived a timeout is still "running work")
@@ -355,8 +374,8 @@ func monitorLines(lines []string) (vs []hxlib.Violation) {
 			// promptness
 			last := c.tCancel
 			allEarly := true
-			for _, it := range tr.items {
-				if it.mod == c.mod && it.enter < e.idx {
+			for _, it := range tr.all() {
+				if it.mod == c.mod && it.enter < e.idx && (it.exit < 0 || it.exit > c.begin) {
 					if it.exit < 0 || it.exit > e.idx {
 						allEarly = false
 						continue
@@ -387,7 +406,7 @@ func monitorLines(lines []string) (vs []hxlib.Violation) {
 			if len(e.args) >= 3 && e.args[2] == "status=2" {
 				m, _ := strconv.Atoi(e.args[0])
 				c := lastCycle[m]
-				it := tr.items[fmt.Sprintf("%d/%s", m, e.args[1])]
+				it := tr.byExit(fmt.Sprintf("%d/%s", m, e.args[1]), e.idx)
 				if c != nil && it != nil && !c.timeout && it.enter < c.begin && c.offline >= 0 && c.offline < e.idx {
 					add("C05:premature-offline:"+tr.classify(c), fmt.Sprintf("work item %s of m%d, running since before the stop, reads Status()=Offline before it returns", it.id, m), e.idx)
 				}
@@ -509,7 +528,7 @@ func countTrace(r *hxlib.Run, j *job, tr *trace) {
 			r.Count("cycle:timeout")
 		}
 		running := 0
-		for _, it := range tr.items {
+		for _, it := range tr.all() {
 			if it.mod == c.mod && it.enter < c.begin && (it.exit < 0 || it.exit > c.begin) {
 				running++
 			}
